@@ -52,26 +52,15 @@ def RustNowAnswers (inp : Nat → Value) (h : Value) (calls : List Value) (a : A
   run (ctxE inp) "ClockBoundClient::now" (clientValue h) [] = rustNowOutcome h calls a
 
 /-- what `clockbound_now` of the current source does on a valid context and output pointer: the calls it makes
-    and its answer — NULL after one write through `output`, or `&ctx.err` after `ctx.err = e.into()`, where the
-    `From<ShmError> for clockbound_err` of the same source turns that `e` into the error `a` (kind as the C
-    enumerator, `sys_errno`, `detail`) -/
+    and its answer — NULL after one write of the interval and the status enumerator through `output`, or `&ctx.err`
+    holding the `clockbound_err` (kind as the C enumerator, `sys_errno`, `detail`) -/
 def FfiNowAnswers (inp : Nat → Value) (h err : Value) (calls : List Value) (a : ApiAnswer) : Prop :=
-  ∃ f : Except ShmErrorV Bound,
-    run (ctxE inp) "ffi_lib::clockbound_now" .unit [heapPtr (ctxValue err h), outPtr "output"] = ffiNowOutcome calls f ∧
-    (match f, a with
-     | .ok b, .ok b' => b = b'
-     | .error e, .error c =>
-       run (ctxE inp) "From<ShmError> for clockbound_err::from" .unit [shmErrorValue e] = .ok (ffiErrValue c) .unit []
-     | _, _ => False)
+  run (ctxE inp) "ffi_lib::clockbound_now" .unit [heapPtr (ctxValue err h), outPtr "output"] = ffiNowOutcome calls a
 
 theorem ffiNowAnswers_of (inp : Nat → Value) (h err : Value) (snap : Except ShmErrorV Record)
     (bound : Except ShmErrorV Bound) (h0 : inp 0 = snapResValue snap) (h1 : inp 1 = boundResValue bound) :
-    FfiNowAnswers inp h err (nowCalls h snap bound) (clientNow snap bound) := by
-  refine ⟨firstErr snap bound, CodeTieErrors.ffi_now_eq inp h err snap bound h0 h1, ?_⟩
-  rw [ErrorsProg.clientNow_eq_firstErr]
-  cases firstErr snap bound with
-  | ok b => rfl
-  | error e => exact CodeTieErrors.ffi_from_eq_all inp e
+    FfiNowAnswers inp h err (nowCalls h snap bound) (clientNow snap bound) :=
+  CodeTieErrors.ffi_now_eq inp h err snap bound h0 h1
 
 /-- what `ClockErrorBound::now` returns, as the client crates see it: the embedding of the model outcome's
     `Result` (both groups write `Result<(timespec, timespec, ClockStatus), ShmError>` the same way) -/
@@ -170,11 +159,11 @@ theorem C14_now_snapshot_error (e : ShmErrorV) (h err : Value) (inp : Nat → Va
       RustNowAnswers inp h [evSnapshot (readerValue h) (inp 0)] (.error c) ∧
       FfiNowAnswers inp h err [evSnapshot (readerValue h) (inp 0)] (.error c) ∧
       c.kind ≠ .none ∧ (c.kind ≠ .syscall → c.errno = 0 ∧ c.detail = none) := by
-  refine ⟨e.toClient, ?_, ⟨.error e, ?_, CodeTieErrors.ffi_from_eq_all inp e⟩,
-    ErrorsProg.toClient_kind_ne_none e, ErrorsProg.toClient_errno e⟩
+  refine ⟨e.toClient, ?_, ?_, ErrorsProg.toClient_kind_ne_none e, ErrorsProg.toClient_errno e⟩
   · unfold RustNowAnswers
     rw [rust_now_snap_err inp h e (.error e) h0, h0]; rfl
-  · rw [ffi_now_snap_err inp h err e (.error e) h0, h0]; rfl
+  · unfold FfiNowAnswers
+    rw [ffi_now_snap_err inp h err e (.error e) h0, h0]; rfl
 
 /-- **C14, "fail cleanly", when a clock read fails**: the read of CLOCK_REALTIME in `ClockErrorBound::now` fails
     with the system-call error `e`: `now()` of the current source returns that error after ONE read, and both
